@@ -411,6 +411,14 @@ func (s *Sim) doAction(a *Action) {
 		}
 		r := s.apiBegin(o, "Start", a)
 		sctx, scancel := context.WithCancel(context.Background())
+		// the run's context ends by deadline if the plan's next cancellation of this instance says so
+		for i := range s.plan.Timeline {
+			if b := &s.plan.Timeline[i]; b.Kind == ActCancelCtx && b.Inst == a.Inst && b.ByDeadline && b.At > s.now() {
+				scancel()
+				sctx, scancel = context.WithDeadline(context.Background(), s.t0.Add(b.At+1)) // 1ns after the action has recorded the call
+				break
+			}
+		}
 		err := o.el.Start(sctx)
 		s.mu.Lock()
 		if err == nil {
@@ -462,8 +470,17 @@ func (s *Sim) doAction(a *Action) {
 			}
 			if a.NoWait {
 				r := s.apiBegin(o, "CancelStartContext", a)
+				s.mu.Lock()
+				o.started = false // the run is over, whatever becomes of a later Start
+				s.mu.Unlock()
 				cancelStart()
 				s.apiEnd(o, r, true, nil)
+				if a.ThenStart {
+					// cancel(); Start(newCtx) on one goroutine, with nothing in between
+					b := Action{At: a.At, Kind: ActStart, Inst: a.Inst}
+					s.wg.Add(1)
+					s.doAction(&b)
+				}
 				return
 			}
 		}
@@ -485,6 +502,11 @@ func (s *Sim) doAction(a *Action) {
 		s.mu.Unlock()
 		var err error
 		if a.Kind == ActCancelCtx {
+			if a.ByDeadline {
+				// the context was given this instant + 1ns as its deadline when the run was started (it expires
+				// by itself; cancelling it a moment later changes nothing)
+				s.sleepI(2)
+			}
 			cancelStart()
 			limit := s.now() + 5*time.Second + o.in.spec.DemoteDur + 2*time.Second
 			for {
@@ -780,6 +802,18 @@ func (s *Sim) teardown() {
 	s.mu.Unlock()
 	// stop everything that is not stopped yet (outside the judged part of the run)
 	s.tearing.Store(true)
+	// a Start call that is under way (it can take a while: it first shuts a cancelled previous run down,
+	// OnDemote included) must have returned before we decide what is left to stop
+	for _, in := range s.insts {
+		select {
+		case in.startSem <- struct{}{}:
+			<-in.startSem
+		case <-time.After(15 * time.Second):
+		}
+	}
+	s.mu.Lock()
+	objs = append([]*objRT(nil), s.objs...)
+	s.mu.Unlock()
 	var stopWG sync.WaitGroup
 	for _, o := range objs {
 		s.mu.Lock()
